@@ -63,12 +63,13 @@ FMergeFail ==
   /\ ("obs" \in DOMAIN Ev => ObsIs(Ev.obs, commd))
   /\ Same /\ UNCHANGED faultSeen
 
-\* a reload of a long-lived reader: it either fails because of an injected fault, or it exposes a
-\* consistent index holding the last commit (there is no concurrency in these runs)
+\* a reload of a long-lived reader: it either fails because an injected fault hit the reload ITSELF
+\* (nf = faults fired on the calling thread during the call), or it exposes a consistent index
+\* holding the last commit (there is no concurrency in these runs)
 FReload ==
   /\ Ev.ev = "reload"
   /\ IF Ev.ok THEN ObsConsistent(Ev.obs) /\ ObsSorted(Ev.obs) /\ (kf \/ ObsDocs(Ev.obs) = commd)
-     ELSE faultSeen
+     ELSE faultSeen /\ Ev.nf > 0
   /\ Same /\ UNCHANGED faultSeen
 
 \* (F40 - a merge after a failed commit published the registers of the failed commit - is repaired:
